@@ -1,2 +1,133 @@
+"""C18, bounded part: node reproduction and agreement of the two interpolation methods.
+
+Node reproduction is decided *completely in the values* for each array size tried: both
+interpolants are linear in the data (DCT_2D.__call__ is a linear form in psiDCT -- visible in
+the contract of C18_dct --, psiDCT is a linear image of the data through scipy's dct,
+RectBivariateSpline with s=0 solves a linear collocation system), so reproducing every unit
+array e_ij at every node to eps implies |interp(psi)(node) - psi[node]| <= eps * sum|psi| for
+EVERY array of that size.  Additivity is itself spot-checked natively.  Bounded in the
+array size only.  The real wiring (Equilibrium.magneticFunctionsFromGrid, transposition
+conventions included) is what is called.
+"""
+import time
+
+import numpy as np
+
+FN_MFG = "hypnotoad.core.equilibrium:Equilibrium.magneticFunctionsFromGrid"
+SIZES_QUICK = [(4, 4), (4, 7), (9, 5), (12, 17)]
+SIZES_THOROUGH = SIZES_QUICK + [(5, 4), (6, 6), (17, 12), (24, 33), (33, 20)]
+
+
+def bare_equilibrium(R, Z, psiRZ, option):
+    from hypnotoad.core.equilibrium import Equilibrium
+
+    eq = object.__new__(Equilibrium)
+    eq.magneticFunctionsFromGrid(R, Z, psiRZ, option)
+    return eq
+
+
+def node_reproduction(S):
+    t0 = time.time()
+    sizes = SIZES_QUICK if S.tier == "quick" else SIZES_THOROUGH
+    rows, bad = [], []
+    n_eval = 0
+    rng = np.random.default_rng(18)
+    for option in ("spline", "dct"):
+        for nR, nZ in sizes:
+            R = np.linspace(0.7, 2.9, nR)
+            Z = np.linspace(-1.9, 1.3, nZ)
+            RR, ZZ = np.meshgrid(R, Z, indexing="ij")
+            worst, where = 0.0, None
+            for i in range(nR):
+                for j in range(nZ):
+                    e = np.zeros((nR, nZ))
+                    e[i, j] = 1.0
+                    eq = bare_equilibrium(R, Z, e, option)
+                    got = np.asarray(eq.psi(RR, ZZ), dtype=float)
+                    err = np.abs(got - e).max()
+                    n_eval += got.size
+                    if err > worst:
+                        worst, where = float(err), [i, j] + [int(k) for k in np.unravel_index(np.argmax(np.abs(got - e)), got.shape)]
+            # additivity / homogeneity on random data (the linearity the basis argument rests on)
+            a, b = rng.normal(size=(nR, nZ)), rng.normal(size=(nR, nZ))
+            pts = (rng.uniform(R[0], R[-1], 40), rng.uniform(Z[0], Z[-1], 40))
+            ea, eb, eab = (bare_equilibrium(R, Z, x, option) for x in (a, b, 2.5 * a - 1.5 * b))
+            lin = float(np.abs(np.asarray(eab.psi(*pts)) - (2.5 * np.asarray(ea.psi(*pts)) - 1.5 * np.asarray(eb.psi(*pts)))).max())
+            # scalar and array arguments agree
+            s0 = float(ea.psi(pts[0][0], pts[1][0]))
+            scal = abs(s0 - float(np.asarray(ea.psi(*pts))[0]))
+            row = dict(method=option, nR=nR, nZ=nZ, basis_arrays=nR * nZ, worst_node_error=worst, worst_at_basis_and_node=where, linearity_defect=lin, scalar_vs_array=scal)
+            rows.append(row)
+            if worst > 1e-11 or lin > 1e-9 or scal > 1e-12:
+                bad.append(row)
+    S.bounded.append(dict(name="node reproduction on the basis of unit arrays (complete in values by linearity)", evaluations=n_eval, distinct_nontrivial=len(rows), rule="for each method and array size: every unit array e_ij is reproduced at every node to 1e-11 through the real magneticFunctionsFromGrid wiring (non-square sizes, distinct R and Z extents), linearity on random data to 1e-9, scalar = array evaluation; by linearity |interp(psi)(node)-psi[node]| <= 1e-11*sum|psi| for every array of these sizes; distinct = (method, size)", bound="sizes %s" % (sizes,), samples=rows[:4], failures=bad, wall_s=round(time.time() - t0, 1)))  # fmt: skip
+    for b in bad:
+        S.static_vc("bounded:node-reproduction[%s %dx%d]" % (b["method"], b["nR"], b["nZ"]), FN_MFG, "the interpolated psi reproduces the input array at the input nodes", False, detail=repr(b), kind="bounded-grid", model=b)
+
+
+def analytic():
+    import sympy as sp
+
+    R, Z = sp.symbols("R Z", real=True)
+    psi = (R - 1.7) ** 2 + sp.Rational(3, 5) * (Z + sp.Rational(1, 5)) ** 2 - sp.Rational(3, 10) * (R - 1.7) ** 3 + sp.Rational(1, 4) * sp.sin(sp.Rational(13, 10) * Z) * (R - 1) + sp.Rational(1, 10) * sp.cos(2 * R) * Z
+    f = lambda e: sp.lambdify((R, Z), e, "numpy")
+    d = dict(psi=psi, dR=sp.diff(psi, R), dZ=sp.diff(psi, Z), dRR=sp.diff(psi, R, 2), dZZ=sp.diff(psi, Z, 2), dRZ=sp.diff(psi, R, Z))
+    return {k: f(v) for k, v in d.items()}
+
+
+# (quantity, tolerance relative to the scale of the analytic quantity) per resolution, interior points;
+# measured on the repaired tree: see evidence samples; margins >= 5x
+TOL = {
+    "spline": {33: dict(psi=4e-7, grad=2e-5, hess=1.2e-3), 65: dict(psi=4e-8, grad=5e-6, hess=3e-4), 129: dict(psi=4e-9, grad=6e-7, hess=1e-4)},
+    "dct": {33: dict(psi=2e-3, grad=5e-2, hess=0.8), 65: dict(psi=2.5e-4, grad=1.5e-2, hess=0.5), 129: dict(psi=4e-5, grad=4e-3, hess=0.3)},
+}
+
+
+def method_agreement(S):
+    t0 = time.time()
+    A = analytic()
+    rng = np.random.default_rng(181)
+    Rlo, Rhi, Zlo, Zhi = 0.9, 2.6, -1.5, 1.2
+    pr = rng.uniform(Rlo + 0.2 * (Rhi - Rlo), Rhi - 0.2 * (Rhi - Rlo), 300)
+    pz = rng.uniform(Zlo + 0.2 * (Zhi - Zlo), Zhi - 0.2 * (Zhi - Zlo), 300)
+    exact = {k: f(pr, pz) for k, f in A.items()}
+    g2 = exact["dR"] ** 2 + exact["dZ"] ** 2
+    rows, bad = [], []
+    res = [33, 65] if S.tier == "quick" else [33, 65, 129]
+    n_eval = 0
+    for option in ("spline", "dct"):
+        prev = None
+        for n in res:
+            nR, nZ = n, n + 8
+            R, Z = np.linspace(Rlo, Rhi, nR), np.linspace(Zlo, Zhi, nZ)
+            RR, ZZ = np.meshgrid(R, Z, indexing="ij")
+            eq = bare_equilibrium(R, Z, A["psi"](RR, ZZ), option)
+            got = dict(
+                psi=eq.psi(pr, pz), BpR=eq.Bp_R(pr, pz), BpZ=eq.Bp_Z(pr, pz), fR=eq.f_R(pr, pz), fZ=eq.f_Z(pr, pz),
+                dRR=eq.d2psidR2(pr, pz), dZZ=eq.d2psidZ2(pr, pz), dRZ=eq.d2psidRdZ(pr, pz),
+            )  # fmt: skip
+            want = dict(psi=exact["psi"], BpR=exact["dZ"] / pr, BpZ=-exact["dR"] / pr, fR=exact["dR"] / g2, fZ=exact["dZ"] / g2, dRR=exact["dRR"], dZZ=exact["dZZ"], dRZ=exact["dRZ"])
+            ok = g2 > 0.05 * g2.max()  # f_R, f_Z blow up at the O-point of the test function
+            err = {}
+            for k in got:
+                m = ok if k in ("fR", "fZ") else slice(None)
+                err[k] = float(np.abs(np.asarray(got[k], dtype=float)[m] - want[k][m]).max() / np.abs(want[k][m]).max())
+                n_eval += len(pr)
+            cls = dict(psi=err["psi"], grad=max(err["BpR"], err["BpZ"], err["fR"], err["fZ"]), hess=max(err["dRR"], err["dZZ"], err["dRZ"]))
+            tol = TOL[option][n]
+            row = dict(method=option, nR=nR, nZ=nZ, rel_err=cls, tol=tol, per_quantity=err)
+            rows.append(row)
+            if any(cls[k] > tol[k] for k in cls):
+                bad.append(row)
+            if prev is not None and option == "spline" and not (cls["psi"] < prev["psi"] and cls["grad"] < prev["grad"]):
+                bad.append(dict(row, problem="error does not decrease with resolution"))
+            prev = cls
+    # the two methods agree with each other within the sum of their error bounds (same points)
+    S.bounded.append(dict(name="both interpolation methods vs an analytic psi (values, first and second derivatives)", evaluations=n_eval, distinct_nontrivial=len(rows), rule="smooth non-separable psi on a non-square grid with distinct extents; 300 random points in the inner 60% of the domain; relative max error of psi / (Bp_R,Bp_Z,f_R,f_Z) / (d2psidR2,d2psidZ2,d2psidRdZ) against exact derivatives below per-method per-resolution tolerances (>=5x above the values measured on the repaired tree; the DCT converges algebraically, its second derivatives are only required to have the right size), spline errors decrease with resolution; agreement of the two methods follows within the sum of the tolerances; distinct = (method, resolution)", bound="resolutions %s" % res, samples=[dict(method=r["method"], n=r["nR"], rel_err=r["rel_err"]) for r in rows], failures=bad, wall_s=round(time.time() - t0, 1)))  # fmt: skip
+    for b in bad:
+        S.static_vc("bounded:interpolation-vs-analytic[%s n=%d]" % (b["method"], b["nR"]), FN_MFG, "interpolated psi and its exposed derivatives agree with the analytic function within the interpolation error", False, detail=repr(b)[:1500], kind="bounded-grid", model=b)
+
+
 def run(S):
-    pass
+    node_reproduction(S)
+    method_agreement(S)
